@@ -25,6 +25,9 @@ RecursionIsDefinition ==
                                  /\ \A c \in st.f : RRec(st.f, L, i, G, c) = RDef(st.f, L, i, G, c)
 MaxProductIsOptimal ==
   CheckDef => \A i \in Samples : st.f # {} => BestRec(st.f, LL, i, G) = BestDef(st.f, LL, i, G)
+\* the traceback as implemented (back-pointers, last child first) yields a feasible assignment attaining the optimum
+TracebackIsOptimal ==
+  CheckDef => \A i \in Samples : st.f # {} => TracebackFeasibleOptimal(st.f, LL, i, G)
 Vec(f) == [k \in 1..G |-> f[k - 1]]
 Rec == [st |-> st,
         Z |-> [i \in Samples |-> ZRecT(st.f, L, i, G)],
